@@ -501,6 +501,14 @@ func mutate(rng *rand.Rand, cls string) stream {
 		}
 		j := c.afterPeerUps()
 		c.insert(j, m.TypePeerUp, m.PeerUp(q.hdr, q.local, 179, 4321, sb, rb, nil))
+		if cls == "peerup_dup" && rng.IntN(2) == 0 {
+			// after the repeated peer up the router reports another, new peer and its routes
+			n := c.newPeer(rng, 12)
+			nsb, nrb := c.opens(rng, n)
+			c.insert(j+1, m.TypePeerUp, m.PeerUp(n.hdr, n.local, 179, 4321, nsb, nrb, nil))
+			c.insert(j+2, m.TypeRouteMonitoring, m.RouteMonitoring(n.hdr, c.update(rng, n, false)))
+			return done(j)
+		}
 		// traffic for the peer whose peer up was hostile
 		c.insert(j+1, m.TypeRouteMonitoring, m.RouteMonitoring(q.hdr, c.update(rng, q, false)))
 		if rng.IntN(2) == 0 {
